@@ -972,6 +972,18 @@ impl IoSim {
                 tree.children.push(NodeSpec { class: class.clone(), name: format!("sweep{}", i), props, children: vec![] });
             }
         }
+        // Occasionally one large blob, so that files cross the 8 KiB buffer sizes
+        // of BufReader / xml-rs and the block sizes of the compressors.
+        if !small && r.chance(1, 16) {
+            let len = r.range(20_000, 200_000) as usize;
+            let bytes = if r.chance(1, 2) { r.bytes(len) } else { vec![b'a' + (r.below(26) as u8); len] };
+            let v = match r.below(3) {
+                0 => ValSpec::Shared(bytes),
+                1 => ValSpec::Bytes(bytes),
+                _ => ValSpec::Str(String::from_utf8_lossy(&bytes).chars().filter(|c| !c.is_control()).collect()),
+            };
+            tree.props.push(("VerifLargeBlob".to_string(), v));
+        }
         // Make the rarer structures (SSTR chunk, sequences, Content arrays)
         // common enough to be in flight when a fault lands.
         if r.chance(1, 3) {
